@@ -8,7 +8,7 @@ from qsim import plan as P
 from qsim.core import Run, state_digest
 
 PROP = "C12"
-QUICK_RUNS = 4800
+QUICK_RUNS = 8000
 RULE = (
     "one case = one seeded training run (state type, sizes, N, batch sizes, epoch range, 1-4 witness "
     "callbacks in class/Lambda flavour, timer on/off, optional LR scheduler) with a stop schedule "
